@@ -209,6 +209,8 @@ def process (p : Proxy) : Cmd → Except Err (List Ev)
   | .addRepository => if p.repo then .error .hasRepository else .ok [.repositoryAdded]
   | .addSigner i => if p.signer.isSome then .error .hasSigner else .ok [.signerAdded i]
   | .updateSigner i =>
+    -- refused while a signer request is open (fix 764cd480; the pinned tree had no such test)
+    if p.openNonce.isSome then .error .hasRequest else
     match p.signer with
     | some s => if s.taKey = i.taKey then .ok [.signerUpdated i] else .error .differentSigner
     | none => .error .differentSigner
